@@ -101,7 +101,8 @@ func (c structCall) run() string {
 		} else {
 			vs = valid.NewVStruct()
 		}
-		if c.outer != nil {
+		outerLast := c.alt && len(c.typed) > 0 // the unscoped rule set registered after the typed ones (the order of SetRule calls does not matter)
+		if c.outer != nil && !outerLast {
 			vs.SetRule(c.outer)
 		}
 		for obj, rm := range c.typed {
@@ -113,6 +114,9 @@ func (c structCall) run() string {
 				vs.SetRule(first, reflect.New(t).Elem().Interface()) // by value; replaced by the next call
 			}
 			vs.SetRule(rm, obj)
+		}
+		if c.outer != nil && outerLast {
+			vs.SetRule(c.outer)
 		}
 		for n, mk := range c.local {
 			vs.SetValidFn(n, markerFn(mk))
